@@ -393,6 +393,18 @@ def prov_rdkit_source(repo, tier="quick"):
             obs.append(ob_fail(oid, fi, call, construct="%s(<the argument>) in place" % last, instance="in-place:" + last,
                                reason="the caller's molecule is rewritten before it is read: hydrogen counts / bond orders of the graph are those of the rewritten molecule"))
     need(readers, "anchor vanished: rdkit_to_networkx no longer iterates GetAtoms() / GetBonds()", fi)
+    # "has coordinates" means: has a conformer.  GetConformer() (id -1) returns the first conformer whatever its id; an explicit id
+    # raises ValueError when no conformer carries it, which the surrounding try/except reads as "no coordinates"
+    for call, nid in fl.calls():
+        if isinstance(call.func, ast.Attribute) and call.func.attr == "GetConformer":
+            ids = list(call.args) + [k.value for k in call.keywords]
+            default = not ids or (len(ids) == 1 and isinstance(ids[0], ast.UnaryOp) and isinstance(ids[0].op, ast.USub) and
+                                  isinstance(ids[0].operand, ast.Constant) and ids[0].operand.value == 1)
+            (obs.append(ob_ok(oid, fi, call, construct="GetConformer() (first conformer, whatever its id)", instance="conformer",
+                              reason="a molecule with coordinates is recognised as such")) if default else
+             obs.append(ob_fail(oid, fi, call, construct="GetConformer(%s)" % ", ".join(ast.unparse(i) for i in ids), instance="conformer",
+                                reason="the argument is a conformer id, not a position: a molecule whose only conformer has another id raises ValueError here, "
+                                       "which is taken for 'no coordinates': the graph comes back without positions")))
     for call, nid in readers:
         rec = fl.canon(call.func.value, nid)
         what = call.func.attr
@@ -687,13 +699,18 @@ def exc_cast_spellings(repo, tier="quick"):
             continue
         for i, st in enumerate(tr.body):
             for sub in ast.walk(st):
-                if isinstance(sub, ast.Call) and isinstance(sub.func, ast.Name) and len(sub.args) == 1 and isinstance(sub.args[0], ast.Name) and not sub.keywords \
-                        and isinstance(st, ast.Assign) and any(isinstance(t, ast.Subscript) for t in st.targets):
+                # `<type held in a local>(<value>)`: the cast by the annotation of the parameter
+                if not (isinstance(sub, ast.Call) and len(sub.args) == 1 and isinstance(sub.args[0], ast.Name) and not sub.keywords and
+                        isinstance(st, (ast.Assign, ast.Return, ast.Expr))):
+                    continue
+                if isinstance(sub.func, ast.Name) and fi.flow.is_local(sub.func.id) and repo.resolve_name(fi.module, sub.func.id) is None:
+                    casts.append((tr, i, st, sub))
+                elif isinstance(sub.func, ast.Attribute) and sub.func.attr == "annotation":
                     casts.append((tr, i, st, sub))
     need(casts, "anchor vanished: check_and_cast_types no longer casts `type(value)` inside a try block and stores the result", fi)
     obs = []
     for tr, i, st, call in casts:
-        tname, vname = call.func.id, call.args[0].id
+        tname, vname = (call.func.id if isinstance(call.func, ast.Name) else "expected_type"), call.args[0].id
         pre = tr.body[:i]
         # the statements in front of the try block in the same arm (`if not isinstance(value, expected_type): <here> try: ...`)
         for parent in ast.walk(fi.node):
@@ -718,6 +735,8 @@ def exc_cast_spellings(repo, tier="quick"):
 
         def load(ev, e, env):
             if isinstance(e, ast.Name) and e.id == "float" and "float" not in env:
+                return True, FLOAT
+            if isinstance(e, ast.Attribute) and e.attr == "annotation":
                 return True, FLOAT
             return False, None
         bad = None
@@ -744,6 +763,6 @@ def exc_cast_spellings(repo, tier="quick"):
             obs.append(ob_undecided(oid, fi, pre[0] if pre else st, construct="statements in front of the cast", instance="spellings",
                                     reason="outside the evaluator's language: %s" % undecided))
         else:
-            obs.append(ob_ok(oid, fi, st, construct="%d spellings reach %s(%s) unchanged" % (len(_SPELLINGS), tname, vname), instance="spellings",
+            obs.append(ob_ok(oid, fi, st, construct="%d spellings reach %s(%s) unchanged" % (len(_SPELLINGS), ast.unparse(call.func), vname), instance="spellings",
                              reason="nothing in front of the cast rejects or rewrites a number"))
     return obs
